@@ -5,6 +5,15 @@
  *   hdr  <hex> <q1,q2,...>  http_parse_req_line (method code, as http_server.c does) + http_req_sec_chk +
  *                           for every query name: http_hdr_val_get_count, http_hdr_val_get and the
  *                           http_hdr_val_get_ex iteration (value spans and next offsets)
+ *   seq  <hex> <hex> [<hex>] http_parse_req_line of every text IN ORDER INTO THE SAME result structure (poisoned before
+ *                           the first call).  Each text lives in a mapping of its own, flush against a PROT_NONE page;
+ *                           the mapping is made PROT_NONE (kept reserved, so no later text can take its address)
+ *                           before the next text is parsed: a pointer left over from an earlier request lies
+ *                           outside the current text and faults when read.  -> {"op":"seq","res":[<as req>...]}
+ *   qry  <hex> <name>       http_query_val_get_ex / http_query_val_get -> rc, name offset, value span
+ * EVERY result structure / result variable handed to a parser is first filled with a poison pattern: pointers to a
+ * PROT_NONE page that belongs to no input, sizes and codes 0xA5A5...; the spans a successful call reports are also
+ * READ (first and last byte): "deref" lists the components whose bytes cannot be read.
  * The input lives in an exact-size region WITHOUT a trailing NUL:
  *   placement A: its last byte is flush against a PROT_NONE page  -> any read at buf[n] faults;
  *   placement B: its first byte directly follows a PROT_NONE page -> any read at buf[-1] faults.
@@ -25,10 +34,17 @@ static uint8_t *lo_start; /* first byte after the lower guard page */
 static sigjmp_buf jb;
 static volatile sig_atomic_t armed;
 
+static uint8_t *poison_pg; /* a PROT_NONE page that is part of no input */
+#define POISON_PTR ((const uint8_t *)(poison_pg + 64))
+#define POISON_SZ ((size_t)0xA5A5A5A5A5A5A5A5ull)
+
 static void on_fault(int sig) {
 	if (armed) { armed = 0; siglongjmp(jb, 1); }
 	vh_fault_handler(sig);
 }
+/* run `stmt` guarded; fvar = 1 when it faulted, else 0 */
+#define GUARD(fvar, stmt) do { armed = 1; if (sigsetjmp(jb, 1)) { (fvar) = 1; } \
+	else { stmt; armed = 0; (fvar) = 0; } } while (0)
 static void arenas(void) {
 	size_t pg = (size_t)sysconf(_SC_PAGESIZE);
 	uint8_t *a = mmap(NULL, ARENA + pg, PROT_READ | PROT_WRITE, MAP_PRIVATE | MAP_ANONYMOUS, -1, 0);
@@ -37,14 +53,42 @@ static void arenas(void) {
 	memset(a, 0xA5, ARENA); memset(b + pg, 0xA5, ARENA);
 	mprotect(a + ARENA, pg, PROT_NONE); hi_end = a + ARENA;
 	mprotect(b, pg, PROT_NONE); lo_start = b + pg;
+	poison_pg = mmap(NULL, pg, PROT_NONE, MAP_PRIVATE | MAP_ANONYMOUS, -1, 0);
+	if (poison_pg == MAP_FAILED) abort();
 }
-/* run `stmt` guarded; fvar = 1 when it faulted, else 0 */
-#define GUARD(fvar, stmt) do { armed = 1; if (sigsetjmp(jb, 1)) { (fvar) = 1; } \
-	else { stmt; armed = 0; (fvar) = 0; } } while (0)
+static void poison_req(http_req_line_data_t *r) {
+	memset(r, 0xA5, sizeof(*r));
+	r->method = r->uri = r->scheme = r->host = r->abs_path = r->query = POISON_PTR;
+}
+static void poison_resp(http_resp_line_data_t *r) {
+	memset(r, 0xA5, sizeof(*r));
+	r->reason_phrase = POISON_PTR;
+}
+/* can the first and the last byte of the reported span be read? (0 = yes or nothing to read) */
+static int deref_bad(const uint8_t *p, size_t l) {
+	volatile uint8_t sink; int f;
+	if (p == NULL || l == 0) return 0;
+	GUARD(f, { sink = p[0]; sink = p[l - 1]; (void)sink; });
+	return f;
+}
 
 static long off_of(const uint8_t *p, const uint8_t *buf) { return p ? (long)(p - buf) : -1L; }
 static void span(const char *name, const uint8_t *p, size_t l, const uint8_t *buf) {
 	printf(",\"%s\":[%ld,%zu]", name, off_of(p, buf), l);
+}
+
+static void put_req(const http_req_line_data_t *r, const uint8_t *buf) {
+	const char *nm[6] = {"method", "target", "scheme", "auth", "path", "query"};
+	const uint8_t *pp[6] = {r->method, r->uri, r->scheme, r->host, r->abs_path, r->query};
+	size_t ll[6] = {r->method_size, r->uri_size, r->scheme_size, r->host_size, r->abs_path_size, r->query_size};
+	int first = 1;
+	printf(",\"ls\":%zu,\"mcode\":%u,\"vmaj\":%u,\"vmin\":%u", r->line_size, r->method_code,
+	    (unsigned)HIWORD(r->proto_ver), (unsigned)LOWORD(r->proto_ver));
+	for (int i = 0; i < 6; i++) span(nm[i], pp[i], ll[i], buf);
+	printf(",\"deref\":[");
+	for (int i = 0; i < 6; i++)
+		if (deref_bad(pp[i], ll[i])) { printf("%s\"%s\"", first ? "" : ",", nm[i]); first = 0; }
+	printf("]");
 }
 
 static void do_req(const uint8_t *src, size_t n) {
@@ -52,21 +96,60 @@ static void do_req(const uint8_t *src, size_t n) {
 	http_req_line_data_t r, r2;
 	int rc = -1, rc2 = -1, ulo, f;
 	memcpy(buf, src, n); memcpy(lb, src, n);
-	memset(&r, 0, sizeof(r));
+	poison_req(&r); poison_req(&r2);
 	GUARD(f, rc = http_parse_req_line(buf, n, &r));
 	if (f) { printf("{\"op\":\"req\",\"fault\":1}\n"); return; }
 	GUARD(ulo, rc2 = http_parse_req_line(lb, n, &r2));
 	printf("{\"op\":\"req\",\"fault\":0,\"ulo\":%d,\"rc\":%d", ulo, rc);
-	if (rc == 0) {
-		printf(",\"ls\":%zu,\"mcode\":%u,\"vmaj\":%u,\"vmin\":%u", r.line_size, r.method_code,
-		    (unsigned)HIWORD(r.proto_ver), (unsigned)LOWORD(r.proto_ver));
-		span("method", r.method, r.method_size, buf);
-		span("target", r.uri, r.uri_size, buf);
-		span("scheme", r.scheme, r.scheme_size, buf);
-		span("auth", r.host, r.host_size, buf);
-		span("path", r.abs_path, r.abs_path_size, buf);
-		span("query", r.query, r.query_size, buf);
+	if (rc == 0) put_req(&r, buf);
+	printf("}\n");
+}
+
+/* several requests, one result structure, every text in its own mapping */
+#define SEQ_MAX 4
+static void do_seq(uint8_t *const *src, const size_t *n, int cnt) {
+	size_t pg = (size_t)sysconf(_SC_PAGESIZE);
+	uint8_t *map[SEQ_MAX]; size_t mlen[SEQ_MAX];
+	http_req_line_data_t r;
+	poison_req(&r);
+	printf("{\"op\":\"seq\",\"res\":[");
+	for (int i = 0; i < cnt; i++) {
+		int rc = -1, f;
+		mlen[i] = ((n[i] + pg - 1) / pg + 1) * pg;
+		map[i] = mmap(NULL, mlen[i] + pg, PROT_READ | PROT_WRITE, MAP_PRIVATE | MAP_ANONYMOUS, -1, 0);
+		if (map[i] == MAP_FAILED) abort();
+		mprotect(map[i] + mlen[i], pg, PROT_NONE);
+		uint8_t *buf = map[i] + mlen[i] - n[i];
+		memset(map[i], 0xA5, mlen[i] - n[i]);
+		memcpy(buf, src[i], n[i]);
+		GUARD(f, rc = http_parse_req_line(buf, n[i], &r));
+		printf("%s{\"fault\":%d,\"ulo\":0,\"rc\":%d", i ? "," : "", f, f ? -1 : rc);
+		if (!f && rc == 0) put_req(&r, buf);
+		printf("}");
+		mprotect(map[i], mlen[i], PROT_NONE);   /* the request is gone; its address range stays reserved */
+		if (f) { cnt = i + 1; break; }
 	}
+	printf("]}\n");
+	for (int i = 0; i < cnt; i++) munmap(map[i], mlen[i] + pg);
+}
+
+static void do_qry(const uint8_t *src, size_t n, const char *name) {
+	uint8_t *buf = hi_end - n, *lb = lo_start;
+	size_t qn = strlen(name), vl = POISON_SZ, vl2 = POISON_SZ;
+	const uint8_t *nm = POISON_PTR, *v = POISON_PTR, *v2 = POISON_PTR;
+	int rc = -1, rc2 = -1, f, f2, ulo = 0, u;
+	memcpy(buf, src, n); memcpy(lb, src, n);
+	GUARD(f, rc = http_query_val_get_ex(buf, n, (const uint8_t *)name, qn, &nm, &v, &vl));
+	GUARD(f2, rc2 = http_query_val_get(buf, n, (const uint8_t *)name, qn, &v2, &vl2));
+	{ const uint8_t *a = POISON_PTR, *b = POISON_PTR; size_t c = POISON_SZ; int r3 = -1;
+	  GUARD(u, r3 = http_query_val_get_ex(lb, n, (const uint8_t *)name, qn, &a, &b, &c)); ulo |= u; (void)r3; }
+	printf("{\"op\":\"qry\",\"ulo\":%d", ulo);
+	if (f) printf(",\"ex\":\"F\"");
+	else if (rc != 0) printf(",\"ex\":[%d]", rc);
+	else printf(",\"ex\":[0,%ld,%ld,%zu,%d]", off_of(nm, buf), off_of(v, buf), vl, deref_bad(nm, 1) | deref_bad(v, vl));
+	if (f2) printf(",\"get\":\"F\"");
+	else if (rc2 != 0) printf(",\"get\":[%d]", rc2);
+	else printf(",\"get\":[0,%ld,%zu,%d]", off_of(v2, buf), vl2, deref_bad(v2, vl2));
 	printf("}\n");
 }
 
@@ -75,7 +158,7 @@ static void do_resp(const uint8_t *src, size_t n) {
 	http_resp_line_data_t r, r2;
 	int rc = -1, rc2 = -1, ulo, f;
 	memcpy(buf, src, n); memcpy(lb, src, n);
-	memset(&r, 0, sizeof(r)); memset(&r2, 0, sizeof(r2));
+	poison_resp(&r); poison_resp(&r2);
 	GUARD(f, rc = http_parse_resp_line(buf, n, &r));
 	if (f) { printf("{\"op\":\"resp\",\"fault\":1}\n"); return; }
 	GUARD(ulo, rc2 = http_parse_resp_line(lb, n, &r2));
@@ -84,6 +167,7 @@ static void do_resp(const uint8_t *src, size_t n) {
 		printf(",\"ls\":%zu,\"code\":%u,\"vmaj\":%u,\"vmin\":%u", r.line_size, r.status_code,
 		    (unsigned)HIWORD(r.proto_ver), (unsigned)LOWORD(r.proto_ver));
 		span("reason", r.reason_phrase, r.reason_phrase_size, buf);
+		printf(",\"deref\":[%s]", deref_bad(r.reason_phrase, r.reason_phrase_size) ? "\"reason\"" : "");
 	}
 	printf("}\n");
 }
@@ -94,7 +178,7 @@ static void do_hdr(const uint8_t *src, size_t n, char *queries) {
 	int prc = -1, sec = -1, f, f2, ulo = 0, first = 1;
 	volatile uint32_t mc = 0;
 	memcpy(buf, src, n); memcpy(lb, src, n);
-	memset(&r, 0, sizeof(r));
+	poison_req(&r);
 	GUARD(f, prc = http_parse_req_line(buf, n, &r));
 	if (!f && prc == 0) mc = r.method_code;
 	printf("{\"op\":\"hdr\",\"prc\":%d,\"mc\":%u", f ? -2 : prc, (unsigned)mc);
@@ -103,21 +187,21 @@ static void do_hdr(const uint8_t *src, size_t n, char *queries) {
 	GUARD(f2, sec = http_req_sec_chk(lb, n, mc)); ulo |= f2;
 	printf(",\"look\":{");
 	for (char *q = strtok(queries, ","); q != NULL; q = strtok(NULL, ",")) {
-		size_t qn = strlen(q), cnt = 0, vl = 0, next = 0, off = 0;
-		const uint8_t *v = NULL;
+		size_t qn = strlen(q), cnt = 0, vl = POISON_SZ, next = POISON_SZ, off = 0;
+		const uint8_t *v = POISON_PTR;
 		int rc = -1, it;
 		printf("%s\"%s\":{", first ? "" : ",", q); first = 0;
 		GUARD(f, cnt = http_hdr_val_get_count(buf, n, (const uint8_t*)q, qn));
 		if (f) printf("\"cnt\":\"F\""); else printf("\"cnt\":%zu", cnt);
 		GUARD(f2, cnt = http_hdr_val_get_count(lb, n, (const uint8_t*)q, qn)); ulo |= f2;
-		v = NULL; vl = 0;
+		v = POISON_PTR; vl = POISON_SZ;
 		GUARD(f, rc = http_hdr_val_get(buf, n, (const uint8_t*)q, qn, &v, &vl));
 		if (f) printf(",\"get\":\"F\""); else printf(",\"get\":[%d,%ld,%zu]", rc, rc == 0 ? off_of(v, buf) : -1L, rc == 0 ? vl : 0);
-		v = NULL; vl = 0;
+		v = POISON_PTR; vl = POISON_SZ;
 		GUARD(f2, rc = http_hdr_val_get(lb, n, (const uint8_t*)q, qn, &v, &vl)); ulo |= f2;
 		printf(",\"ex\":[");
 		for (it = 0, off = 0; it < 16; it++) {
-			v = NULL; vl = 0; next = 0;
+			v = POISON_PTR; vl = POISON_SZ; next = POISON_SZ;
 			GUARD(f, rc = http_hdr_val_get_ex(buf, n, (const uint8_t*)q, qn, off, &v, &vl, &next));
 			if (f) { printf("%s\"F\"", it ? "," : ""); break; }
 			if (rc != 0) break;
@@ -131,7 +215,7 @@ static void do_hdr(const uint8_t *src, size_t n, char *queries) {
 }
 
 int main(void) {
-	static char line[1 << 18], op[16], hex[1 << 17], qs[1024];
+	static char line[1 << 18], op[16], hex[1 << 17], qs[1 << 16], h3[1 << 16];
 	struct sigaction sa;
 	vh_install_fault_handler();
 	memset(&sa, 0, sizeof(sa));
@@ -139,8 +223,8 @@ int main(void) {
 	sigaction(SIGSEGV, &sa, NULL); sigaction(SIGBUS, &sa, NULL);
 	arenas();
 	while (fgets(line, sizeof(line), stdin)) {
-		qs[0] = 0;
-		if (sscanf(line, "%15s %131071s %1023s", op, hex, qs) < 2) continue;
+		qs[0] = 0; h3[0] = 0;
+		if (sscanf(line, "%15s %131071s %65535s %65535s", op, hex, qs, h3) < 2) continue;
 		vh_set_tag(line);
 		size_t n;
 		uint8_t *in = vh_unhex(hex, &n);
@@ -148,6 +232,15 @@ int main(void) {
 		if (!strcmp(op, "req")) do_req(in, n);
 		else if (!strcmp(op, "resp")) do_resp(in, n);
 		else if (!strcmp(op, "hdr")) do_hdr(in, n, qs);
+		else if (!strcmp(op, "qry") && qs[0]) do_qry(in, n, qs);
+		else if (!strcmp(op, "seq") && qs[0]) {
+			uint8_t *sv[SEQ_MAX]; size_t sn[SEQ_MAX]; int cnt = 2;
+			sv[0] = in; sn[0] = n;
+			sv[1] = vh_unhex(qs, &sn[1]);
+			if (h3[0]) { sv[2] = vh_unhex(h3, &sn[2]); cnt = 3; }
+			do_seq(sv, sn, cnt);
+			for (int i = 1; i < cnt; i++) vh_buf_free(sv[i]);
+		}
 		else printf("{\"op\":\"?\"}\n");
 		vh_buf_free(in);
 	}
